@@ -20,13 +20,27 @@ use std::{
 use parking_lot::{ArcRwLockReadGuard, ArcRwLockWriteGuard, RawRwLock, RwLock};
 
 #[derive(Debug)]
-pub(crate) struct ReadLatch<P>(ArcRwLockReadGuard<RawRwLock, P>);
+pub(crate) struct ReadLatch<P>(
+    ArcRwLockReadGuard<RawRwLock, P>,
+    #[cfg(feature = "verif")] crate::verif::locktap::Held,
+);
 
 pub trait Latch<P>: Deref<Target = P> {}
 
+#[cfg(not(feature = "verif"))]
 impl<P> ReadLatch<P> {
     pub(crate) fn new(lock: &Arc<RwLock<P>>) -> Self {
         Self(lock.read_arc())
+    }
+}
+
+#[cfg(feature = "verif")]
+impl<P: Identifiable<IdType = PageId>> ReadLatch<P> {
+    pub(crate) fn new(lock: &Arc<RwLock<P>>) -> Self {
+        crate::verif::yield_point();
+        let guard = lock.read_arc();
+        let held = crate::verif::locktap::Held::page(u64::from(guard.id()), false);
+        Self(guard, held)
     }
 }
 
@@ -40,11 +54,25 @@ impl<P> Deref for ReadLatch<P> {
 }
 
 #[derive(Debug)]
-pub(crate) struct WriteLatch<P>(ArcRwLockWriteGuard<RawRwLock, P>);
+pub(crate) struct WriteLatch<P>(
+    ArcRwLockWriteGuard<RawRwLock, P>,
+    #[cfg(feature = "verif")] crate::verif::locktap::Held,
+);
 
+#[cfg(not(feature = "verif"))]
 impl<P> WriteLatch<P> {
     pub(crate) fn new(lock: &Arc<RwLock<P>>) -> Self {
         Self(lock.write_arc())
+    }
+}
+
+#[cfg(feature = "verif")]
+impl<P: Identifiable<IdType = PageId>> WriteLatch<P> {
+    pub(crate) fn new(lock: &Arc<RwLock<P>>) -> Self {
+        crate::verif::yield_point();
+        let guard = lock.write_arc();
+        let held = crate::verif::locktap::Held::page(u64::from(guard.id()), true);
+        Self(guard, held)
     }
 }
 
